@@ -1,16 +1,16 @@
-"""Per-property configuration of ./check (engine, volumes, evidence texts)."""
+"""Per-property configuration of ./check: one JSON fragment per property in lib/props.d/<Cxx>.json.
 
-ENGINES = ["keyenc"]
+Keys: engine, n_quick, n_thorough (generated cases per tier), rule (how cases are generated / what is
+non-trivial), assumptions [..], trusted_base [..] (property-specific additions), level ("proof" default),
+level_text, level_note, technique (optional), engine_text (optional), exhaustive (bool),
+nontrivial_min_ops (default 2), shrink_s (default 60).
+"""
+import glob
+import json
+import os
 
-PROPS = {
-    "C18": dict(
-        engine="keyenc", n_quick=300, n_thorough=20000, exhaustive=True,
-        rule="exhaustive: all (primary, secondary) pairs over alphabet {00,01,02,ff} up to length 2 (quick) / 3 (thorough), "
-             "all ordered pairs of such composite keys up to length 1 (quick) / 2 (thorough), all 2^16 values of the 16-bit encoders, "
-             "powers of two +-1 for the 32/64-bit encoders, every LPM prefix length 0..33 on five data patterns; plus n seeded random cases "
-             "of long keys around the 127/128/254 length boundaries. A case is non-trivial if it has >= 2 ops; distinct by hash of its op list.",
-        assumptions=["Go's bytes.Compare is bytewise lexicographic order (lex_lt)",
-                     "netip-based encoders (NetIP, NetIPAddr, NetIPPrefix) delegate to net/netip and are not modelled"],
-        trusted_base=["model: coq/theories/KeyEnc/Model.v (enc, nuk, accessors, beN, lpmEncode/lpmDecode) hand-written from part_index.go, index/int.go, index/bool.go, index/string.go, lpm/key.go"],
-    ),
-}
+_D = os.path.join(os.path.dirname(os.path.abspath(__file__)), "props.d")
+PROPS = {}
+for _p in sorted(glob.glob(os.path.join(_D, "C*.json"))):
+    PROPS[os.path.basename(_p)[:-5]] = json.load(open(_p))
+ENGINES = sorted({c["engine"] for c in PROPS.values()})
